@@ -180,3 +180,63 @@ func VerifC02_hashkey_cookie() {
 		}
 	}
 }
+
+// reloadShapesC02: (names before) -> (names after) of a gslb reload. Every shape ADDS at least one name
+// that sorts before a surviving one, so Reload's "kept first, new ones appended, then sort" really
+// permutes the list (the shifted name sets of VerifC02_reload only append names that sort last).
+var reloadShapesC02 = [][2][]string{
+	{{"sub-b"}, {"sub-a", "sub-b"}},
+	{{"sub-b"}, {"GSLB_BLACKHOLE", "sub-b"}},
+	{{"sub-b", "sub-c"}, {"sub-a", "sub-c"}},
+	{{"sub-a", "sub-c"}, {"sub-a", "sub-b", "sub-c"}},
+	{{"sub-c"}, {"sub-a", "sub-b", "sub-c"}},
+}
+
+func drawGslbConfC02(names []string, wb int) gslb_conf.GslbClusterConf {
+	gc := gslb_conf.GslbClusterConf{}
+	for _, nm := range names {
+		w := vrt.Int("weight")
+		vrt.Assume(w >= -1 && w < wb)
+		gc[nm] = w
+	}
+	vrt.Assume(gc.Check() == nil)
+	return gc
+}
+
+// VerifC02_reload_added: Init(conf0) then Reload(conf) where the reload adds sub-cluster names sorting
+// before surviving ones (every map order): the target is still the name-sorted cumulative-weight
+// partition of hash mod W for the NEW conf only — a fixed function of key and eligible set, whatever the
+// reload history (incl. the `single` shortcut when exactly one weight is positive).
+func VerifC02_reload_added() {
+	shape := reloadShapesC02[vrt.Choose("shape", vrt.Param("SHAPES", len(reloadShapesC02)))]
+	wb := vrt.Param("WB", 256)
+	g0 := drawGslbConfC02(shape[0], wb)
+	gc := drawGslbConfC02(shape[1], wb)
+	bal := NewBalanceGslb("c")
+	vrt.MapOrder(true)
+	vrt.Assert(bal.Init(g0) == nil, "C02/init-accepts-checked-conf")
+	vrt.Assert(bal.Reload(gc) == nil, "C02/reload-accepts-checked-conf")
+	vrt.MapOrder(false)
+
+	sorted := append([]string{}, shape[1]...)
+	sort.Strings(sorted)
+	total := 0
+	for _, nm := range sorted {
+		if w := gc[nm]; w > 0 {
+			total += w
+		}
+	}
+	vrt.Assert(bal.totalWeight == total, "C02/gslb-total-weight")
+	key := vrt.Bytes("key", 4)
+	sub, err := bal.subClusterBalance(key)
+	vrt.Assert(err == nil && sub != nil, "C02/gslb-selects")
+	r := int(murmur3.Sum64(key) % uint64(bal.totalWeight))
+	want := refSubC02(sorted, gc, r)
+	got := -1
+	for j, nm := range sorted {
+		if sub.Name == nm {
+			got = j
+		}
+	}
+	vrt.Assert(got == want, "C02/gslb-target-after-reload-is-weight-partition-of-hash")
+}
